@@ -49,6 +49,7 @@ def run(index, tier="quick", seed=0) -> Result:
     rot_pts = [e for e in r["events"] if e.type == "dotcall" and e.func is fn and e.left is not None and "batch" in e.left.tags
                and e.right is not None and "orth" in e.right.tags]
     aligned = [e for e in r["events"] if e.type == "enter" and not e.entry and e.callee.name == "_align_points_by_normal"]
+    # np.dot(points, M) applies M^T to every point: the forward rotation R needs M = R.T
     if rot_pts and all("transposed" in e.right.tags for e in rot_pts) and aligned:
         res.ok("IN-7", "Polygon.is_inside:rotation")
     elif not rot_pts:
